@@ -441,3 +441,181 @@ def r_symz(ctx) -> RuleResult:
         raise AnalysisError(f"R-SYMZ: only {n} places found where an atom record with symbol and atomic number is made (expected V2000, V3000, parser)")
     res.counts = {"atom_record_sites": n}
     return res
+
+
+# --------------------------------------------------------------------------- R-NOBONDS
+
+
+def _edge_derived(fi, e, depth=0) -> bool:
+    """does the expression enumerate the bonds of a graph (m.edges, m.edges(), nx.edges(m), a comprehension / list / sorted over
+    them, or a local name bound to such)?"""
+    if depth > 5:
+        return False
+    if isinstance(e, ast.Attribute) and e.attr == "edges":
+        return True
+    if isinstance(e, ast.Call):
+        if isinstance(e.func, ast.Attribute) and e.func.attr == "edges":
+            return True
+        if norm(e.func) in ("nx.edges", "networkx.edges"):
+            return True
+        if isinstance(e.func, ast.Name) and e.func.id in ("list", "tuple", "sorted", "set", "iter", "reversed", "enumerate") and e.args:
+            return _edge_derived(fi, e.args[0], depth + 1)
+        if isinstance(e.func, ast.Attribute) and e.func.attr in ("array", "asarray", "fromiter") and e.args:
+            return _edge_derived(fi, e.args[0], depth + 1)
+    if isinstance(e, (ast.ListComp, ast.GeneratorExp, ast.SetComp)):
+        return len(e.generators) == 1 and _edge_derived(fi, e.generators[0].iter, depth + 1)
+    if isinstance(e, ast.Name):
+        d = single_def(fi.node, e.id)
+        return d is not None and _edge_derived(fi, d, depth + 1)
+    return False
+
+
+@rule("R-NOBONDS")
+def r_nobonds(ctx) -> RuleResult:
+    res = RuleResult("R-NOBONDS", "nothing in the pipeline needs the molecule to have a bond: no unpacking of a transposed bond list, no max / min / first element / division over the bonds without a fall-back")
+    from .common import closure
+    fis = {f.fq: f for f in closure(ctx, "canonicalize", "serialize", "parse", "read_text", "write")}
+    n = 0
+    for f in fis.values():
+        par = {}
+        for x in ast.walk(f.node):
+            for c in ast.iter_child_nodes(x):
+                par[id(c)] = x
+        for x in own_walk(f.node):
+            why = None
+            # a, b = zip(*edges) / np.array(edges).T / np.transpose(edges)
+            if isinstance(x, ast.Assign) and isinstance(x.targets[0], (ast.Tuple, ast.List)) and len(x.targets[0].elts) >= 2:
+                v = x.value
+                src = None
+                if isinstance(v, ast.Call) and isinstance(v.func, ast.Name) and v.func.id == "zip" and len(v.args) == 1 and isinstance(v.args[0], ast.Starred):
+                    src = v.args[0].value
+                elif isinstance(v, ast.Attribute) and v.attr == "T":
+                    src = v.value
+                elif isinstance(v, ast.Call) and isinstance(v.func, ast.Attribute) and v.func.attr == "transpose":
+                    src = v.args[0] if v.args else v.func.value
+                elif isinstance(v, ast.Call) and isinstance(v.func, ast.Name) and v.func.id in ("map", "list", "tuple") and v.args \
+                        and any(isinstance(y, ast.Call) and isinstance(y.func, ast.Name) and y.func.id == "zip" and y.args and isinstance(y.args[0], ast.Starred) for y in ast.walk(v)):
+                    src = next(y.args[0].value for y in ast.walk(v) if isinstance(y, ast.Call) and isinstance(y.func, ast.Name) and y.func.id == "zip" and y.args and isinstance(y.args[0], ast.Starred))
+                if src is not None:
+                    n += 1
+                    if _edge_derived(f, src):
+                        why = f"`{short(x, 60)}` unpacks the transposed bond list into {len(x.targets[0].elts)} names: with no bond there is nothing to unpack (ValueError)"
+            # max(...) / min(...) over the bonds without default
+            if isinstance(x, ast.Call) and isinstance(x.func, ast.Name) and x.func.id in ("max", "min") and len(x.args) == 1 and not any(k.arg == "default" for k in x.keywords):
+                n += 1
+                if _edge_derived(f, x.args[0]):
+                    why = f"`{short(x, 60)}` has no default: with no bond it raises ValueError"
+            # edges[0] / next(iter(edges))
+            if isinstance(x, ast.Subscript) and isinstance(x.ctx, ast.Load) and isinstance(x.slice, ast.Constant) and isinstance(x.slice.value, int) and _edge_derived(f, x.value) \
+                    and not isinstance(x.value, ast.Attribute):
+                n += 1
+                why = f"`{short(x, 60)}` takes a fixed element of the bond list: with no bond it raises IndexError"
+            if isinstance(x, ast.Call) and isinstance(x.func, ast.Name) and x.func.id == "next" and len(x.args) == 1 and _edge_derived(f, x.args[0]):
+                n += 1
+                why = f"`{short(x, 60)}` has no default: with no bond it raises StopIteration"
+            # x / number_of_edges()
+            if isinstance(x, ast.BinOp) and isinstance(x.op, (ast.Div, ast.FloorDiv, ast.Mod)):
+                r = x.right
+                if (isinstance(r, ast.Call) and isinstance(r.func, ast.Attribute) and r.func.attr in ("number_of_edges", "size") and not r.args) or \
+                        (isinstance(r, ast.Call) and isinstance(r.func, ast.Name) and r.func.id == "len" and r.args and _edge_derived(f, r.args[0])):
+                    n += 1
+                    guarded = False
+                    p = par.get(id(x))
+                    while p is not None and not guarded:
+                        if isinstance(p, (ast.If, ast.IfExp)) and any(isinstance(y, ast.Call) and isinstance(y.func, ast.Attribute) and y.func.attr in ("number_of_edges", "size") for y in ast.walk(p.test)):
+                            guarded = True
+                        p = par.get(id(p))
+                    if not guarded:
+                        why = f"`{short(x, 60)}` divides by the number of bonds: ZeroDivisionError for a molecule without bonds"
+            if why:
+                res.inst(f.fq, why, "fail")
+                res.fail(Finding("R-NOBONDS", f.module.rel, f.qualname, norm(x)[:120], why + "; atoms without bonds (noble gases, ions) are in the domain", line=x.lineno))
+    # fixture: the planted idiom must be recognised
+    from ..model import Repo
+    fx = Repo(ctx.repo.root, {**ctx.repo.overlay, "tucan/_tsa_fixture_nobonds.py": "def _fx(m):\n    a, b = zip(*m.edges)\n    return a, b\n"})
+    ffx = fx.func("tucan._tsa_fixture_nobonds._fx")
+    asg = next(x for x in ast.walk(ffx.node) if isinstance(x, ast.Assign))
+    if not _edge_derived(ffx, asg.value.args[0].value):
+        raise AnalysisError("R-NOBONDS self-test: planted zip(*m.edges) not recognised")
+    res.inst("pipeline closures", f"{len(fis)} functions scanned, {n} candidate constructs", "ok")
+    res.counts = {"functions": len(fis), "candidate_constructs": n, "fixture_detected": 1}
+    return res
+
+
+# --------------------------------------------------------------------------- R-BONDTYPE
+
+
+@rule("R-BONDTYPE")
+def r_bondtype(ctx) -> RuleResult:
+    res = RuleResult("R-BONDTYPE", "both molfile readers take every bond type of the format (V2000: 1-8, V3000: 1-10) and keep the number as it is written")
+    from ..concrete import GAP, UNKNOWN, PathEval, PState, _Unknown
+    from .readers import block_decoder
+    from .spec import V2000_BOND_TYPES, V3000_BOND_TYPES
+    bt_k = ctx.repo.const("tucan.graph_attributes", "BOND_TYPE")
+
+    def consts_of(f_):
+        out_ = {}
+        for nm in {x.id for x in ast.walk(f_.node) if isinstance(x, ast.Name)}:
+            v = try_const(ctx, f_, ast.Name(nm, ast.Load()), default=None)
+            if v is not None:
+                out_.setdefault(nm, v)
+        return out_
+    for ver, types in (("V2000", V2000_BOND_TYPES), ("V3000", V3000_BOND_TYPES)):
+        ent = reader_entries(ctx)[ver]
+        clo = [ent] + [ctx.cg.funcs[q] for q in ctx.cg.closure([ent.fq])]
+        # the function that makes the bond record: a dict display with the bond-type key
+        makers = []
+        for f in clo:
+            for d in own_walk(f.node):
+                if isinstance(d, ast.Dict) and any(k is not None and try_const(ctx, f, k, default=None) == bt_k for k in d.keys):
+                    makers.append((f, d))
+        if len(makers) != 1:
+            raise AnalysisError(f"R-BONDTYPE: {ver}: {len(makers)} places make a bond record (expected one)")
+        f, d = makers[0]
+        ps = params_of(f.node)
+        if not ps:
+            raise AnalysisError(f"R-BONDTYPE: {ver}: {f.qualname} takes no line")
+        calls = {}
+        for g in [ctx.cg.funcs[q] for q in ctx.cg.closure([f.fq])]:
+            if g.cls is None and "." not in g.qualname:
+                calls[g.name] = (g.node, consts_of(g))
+        bad, undecided = [], []
+        for t in types:
+            sample = f"{1:>3}{2:>3}{t:>3}  0  0  0  0" if ver == "V2000" else ["M", "V30", "1", str(t), "1", "2"]
+            pe = PathEval(calls)
+            env = consts_of(f)
+            for p_ in ps:
+                env[p_] = UNKNOWN
+            env[ps[0]] = sample
+            falls, lefts = pe.block(f.node.body, [PState(env)])
+            rets = [v for _s, how, v in lefts if how == "return"]
+            if not rets and not falls:
+                if pe.gaps:
+                    undecided.append((t, pe.gaps[0]))
+                else:
+                    bad.append((t, "rejected"))
+                continue
+            # the number kept
+            kept = set()
+            for v in rets:
+                rec = v
+                if isinstance(v, tuple):
+                    rec = next((x for x in v if isinstance(x, dict) and bt_k in x), None)
+                if isinstance(rec, dict) and bt_k in rec and not isinstance(rec[bt_k], _Unknown):
+                    kept.add(rec[bt_k])
+                else:
+                    kept.add(None)
+            if kept == {t}:
+                continue
+            if None in kept:
+                undecided.append((t, pe.gaps[0] if pe.gaps else "the record returned for the sample is not read"))
+            else:
+                bad.append((t, f"kept as {sorted(kept)}"))
+        if undecided and not bad:
+            raise AnalysisError(f"R-BONDTYPE: {ver}: cannot follow {f.qualname} on a sample bond line of type {undecided[0][0]} ({undecided[0][1]})")
+        res.inst(f.fq, f"{ver}: bond types {types[0]}..{types[-1]} are taken and kept", "fail" if bad else "ok")
+        if bad:
+            res.fail(Finding("R-BONDTYPE", f.module.rel, f.qualname, norm(d)[:100],
+                             f"{ver}: a bond line of type {', '.join(str(t) for t, _ in bad)} is {bad[0][1]}: the format defines types {types[0]}..{types[-1]}"
+                             + (" (9 coordination, 10 hydrogen; the writer emits whatever type the graph carries)" if ver == "V3000" else ""), line=d.lineno))
+    return res
